@@ -484,6 +484,17 @@ def total_cases(rng, pools, tier):
         # two handlers
         h1, h2 = rng.choice(["map", "and_then", "then"]), rng.choice(["map", "and_then", "then"])
         add("I:two_handlers", "%s, %s => f, %s => g" % (b0.render(lambda: " "), h1, h2), cfgs)
+        # two handlers in every pair of positions among the branches (also in front of all of them)
+        items = [b.render(lambda: " ") for b in base.branches[:3]]
+        slots = list(range(len(items) + 1))
+        i1 = rng.choice(slots)
+        i2 = rng.choice(slots)
+        seq = list(items)
+        for pos, txt in sorted([(i1, "%s => f" % h1), (i2, "%s => g" % h2)], key=lambda x: -x[0]):
+            seq.insert(pos, txt)
+        add("I:two_handlers", ", ".join(seq), cfgs)
+        add("I:two_handlers", "%s => f, %s, %s => g" % (h1, ", ".join(items), h2), cfgs)
+        add("I:two_handlers", "%s => f, %s => g, %s" % (h1, h2, ", ".join(items)), cfgs)
     # ---- unlabelled: random token soups and random edits of valid inputs
     nsoup = 3000 if tier == "quick" else 40000
     for i in range(nsoup):
